@@ -30,6 +30,15 @@ func checkExternal(v map[string]any, p tree.Path) error {
 		return nil
 	}
 	external, ok := b.(bool)
+	if s, isString := b.(string); isString {
+		// the schema admits a string; when interpolation is skipped it has not been cast yet
+		switch strings.ToLower(s) {
+		case "true", "y", "yes", "on":
+			external, ok = true, true
+		case "false", "n", "no", "off":
+			external, ok = false, true
+		}
+	}
 	if !ok {
 		return fmt.Errorf("%s: \"external\" must be a boolean", p)
 	}
